@@ -78,6 +78,10 @@ type mname struct {
 
 const clockStart = int64(1_700_000_000)
 
+// uOdd is the third undeclared secret of the store histories: a legal name with characters that JSON,
+// HTML, fmt and paths each treat specially (the cache document and the log lines carry it)
+const uOdd = `x<&>é 'q'/%s`
+
 func valueOf(name string, ver uint32) []byte { return []byte(fmt.Sprintf("%s#%d", name, ver)) }
 
 // histValue gives the bytes of (name, version) in store histories. Versions v and v+3 of a secret
@@ -95,7 +99,7 @@ func histValue(name string, ver uint32) []byte {
 	return []byte(fmt.Sprintf("%s#%d", name, ver))
 }
 
-var allStoreNames = []string{"d1", "d2", "u1", "u2", "u3"}
+var allStoreNames = []string{"d1", "d2", "u1", "u2", uOdd}
 
 type storeRun struct {
 	prop    string // "C11" or "C19"
@@ -815,7 +819,7 @@ func genStoreCase(rt *rapid.T, prop string) StoreCase {
 			}
 			if rapid.IntRange(0, 3).Draw(rt, "withmidhandle") == 0 {
 				o.MidAfter = rapid.IntRange(1, 2).Draw(rt, "midafter-h")
-				o.MidHandle = rapid.SampledFrom([]string{"u1", "u1", "u2", "u3", "d2"}).Draw(rt, "midhandle")
+				o.MidHandle = rapid.SampledFrom([]string{"u1", "u1", "u2", uOdd, "d2"}).Draw(rt, "midhandle")
 			}
 		case "restart":
 			if rapid.IntRange(0, 2).Draw(rt, "redeclare") == 0 {
@@ -825,7 +829,7 @@ func genStoreCase(rt *rapid.T, prop string) StoreCase {
 			o.Name = rapid.SampledFrom(allStoreNames).Draw(rt, "name")
 			o.N = rapid.SampledFrom([]int{0, 0, 0, 1, 2}).Draw(rt, "which")
 		case "read", "handle":
-			o.Name = rapid.SampledFrom([]string{"u1", "u1", "u2", "u3", "d1", "d2"}).Draw(rt, "name")
+			o.Name = rapid.SampledFrom([]string{"u1", "u1", "u2", uOdd, "d1", "d2"}).Draw(rt, "name")
 		default:
 			o.Name = rapid.SampledFrom(allStoreNames).Draw(rt, "name")
 		}
